@@ -277,6 +277,18 @@ Definition step (st : state) (o : op) : res (state * list event * list bool) :=
       | Err => Ok (st, [], [true])
       | Panic => Panic
       end
+  (* other.AddRow(rows[r]) appends the pointer to the OTHER table's rows, grows
+     the other table's columns and invokes the row's own add-time callbacks
+     and the other table's - all of it the other table's history (the harness
+     logs those invocations in the other table's log and judges them against
+     the other table's history).  Of this table nothing is read or written:
+     t.rows, t.headerRow, t.columns, the callback sets.  (The one field of the
+     row that AddRow overwrites, Row.inTable, is not part of this state: the
+     render pass takes the table from its receiver; Cell.columnOfTable does
+     follow the row's pointer, which is why the pair histories of the harness
+     keep column-level cell callbacks of the two render times out - see
+     harness/c13_more.go.) *)
+  | OOtherAddRow _ => Ok (st, [], [])
   end.
 
 Fixpoint run_from (st : state) (log : list event) (errs : list bool) (h : list op) : res (state * list event * list bool) :=
